@@ -394,14 +394,6 @@ def attribute_known(base, observed, shared_checker, findings):
     ids = {f["id"] for f in findings}
     if not isinstance(base, list) or not isinstance(observed, list):
         return []
-    # C10-union-set-literal-display (any configuration: it depends on the hash seed): a set / frozenset
-    # literal that is a MEMBER of a union is printed by MultiValuedValue.__str__ with a plain repr(), i.e.
-    # in hash order.  Attributed only when the renderings are equal after sorting the elements of every
-    # `{...}` display in the texts.
-    if "C10-union-set-literal-display" in ids and len(base) == len(observed) and base != observed:
-        canon = lambda ds: [[d[0], d[1], d[2], re.sub(r"\{([^{}]*)\}", lambda m: "{" + ", ".join(sorted(m.group(1).split(", "))) + "}", d[3])] for d in ds]  # noqa: E731
-        if canon(base) == canon(observed):
-            return ["C10-union-set-literal-display"]
     # C10-typed-value-str-slot also without a shared Checker: the TypedValues inside the signatures of
     # builtins (collections.abc.Sized in len's) outlive a Checker, so `reveal_type(len)` prints the
     # suffix exactly when an earlier program of the same process made an assignability check against
@@ -410,17 +402,10 @@ def attribute_known(base, observed, shared_checker, findings):
         strip0 = lambda ds: [[d[0], d[1], d[2], re.sub(r" \(Protocol with members [^)]*\)", "", d[3])] for d in ds]  # noqa: E731
         if strip0(base) == strip0(observed):
             return ["C10-typed-value-str-slot"]
-        if "C10-union-set-literal-display" in ids and canon(strip0(base)) == canon(strip0(observed)):
-            return ["C10-typed-value-str-slot", "C10-union-set-literal-display"]   # both effects in one program
     if not shared_checker:
         return []
     used = []
     b, o = base, observed
-    if "C10-union-set-literal-display" in ids and len(b) == len(o) and b != o:
-        cb, co = canon(b), canon(o)
-        if any(x != y and cx == cy for x, y, cx, cy in zip(b, o, cb, co)):
-            used.append("C10-union-set-literal-display")   # set displays differ; the rest must be explained below
-            b, o = cb, co
     if "C10-typed-value-str-slot" in ids:
         strip = lambda ds: [[d[0], d[1], d[2], re.sub(r" \(Protocol with members [^)]*\)", "", d[3])] for d in ds]  # noqa: E731
         sb, so = strip(b), strip(o)
